@@ -530,7 +530,42 @@ def _oracle_matrix(calc, canon, seqs):
     return [[0.0 if a == b else U.oracle_pair(calc, seqs[a][1], seqs[b][1], canon) for b in range(n)] for a in range(n)]
 
 
-def _check_alignment(out, moltype, canon, seqs, calcs, rng=None, relations=True):
+def _check_public_invalid(out, moltype, canon, seqs, calc, aln, exp, fail):
+    """how an undefined pair surfaces through the public API: `aln.distance_matrix(calc=)` raises ArithmeticError exactly
+    when the published formula is undefined for some pair, and `DistanceMatrix.drop_invalid()` keeps exactly the
+    sequences all of whose distances are defined.  Only for alignments where this is determined by the property: every
+    pair shares a canonical column, no 0/0 in the TN93 formula, no numerically delicate validity decision."""
+    names = [n for n, _ in seqs]
+    n = len(seqs)
+    if calc == "logdet_notk":
+        return
+    for a in range(n):
+        for b in range(a + 1, n):
+            if exp[a][b] == U.UNDEF or U.delicate(calc, seqs[a][1], seqs[b][1], canon):
+                return
+            if not any(x in canon and y in canon for x, y in zip(seqs[a][1], seqs[b][1])):
+                return
+    inp = dict(moltype=moltype, seqs=[list(p) for p in seqs], calc=calc, public=True)
+    bad_names = {names[a] for a in range(n) for b in range(n) if a != b and exp[a][b] == U.INVALID}
+    want_raise = bool(bad_names)
+    pub = _impl_distance_matrix(calc, aln, names)
+    if (pub == "ArithmeticError") != want_raise:
+        fail(f"{calc}: aln.distance_matrix raises ArithmeticError exactly when a pair is outside the estimator's domain", inp,
+             "ArithmeticError" if want_raise else "a matrix", "ArithmeticError" if pub == "ArithmeticError" else "a matrix was returned",
+             f"est:public:{calc}:distance_matrix-raise")
+    c = _calculator(calc, aln)
+    c.run(show_progress=False)
+    kept = c.get_pairwise_distances().drop_invalid()
+    got = sorted(str(x) for x in kept.names) if kept is not None else []
+    want = sorted(set(names) - bad_names)
+    if len(want) < 2 and len(got) < 2:
+        want = got  # nothing comparable is left either way (None / a single name)
+    if got != want:
+        fail(f"{calc}: drop_invalid keeps exactly the sequences whose distances are all defined", inp, want, got, f"est:public:{calc}:drop_invalid")
+    bump(out, "public_invalid", f"{calc}:{'raise' if want_raise else 'ok'}")
+
+
+def _check_alignment(out, moltype, canon, seqs, calcs, rng=None, relations=True, public=False):
     """all estimator checks for one alignment; appends failures to out"""
     names = [n for n, _ in seqs]
     n = len(seqs)
@@ -597,6 +632,8 @@ def _check_alignment(out, moltype, canon, seqs, calcs, rng=None, relations=True)
         if nontriv:
             out["nontrivial"].add(("est", moltype, tuple(seqs), calc))
         bump(out, "spec_calc", calc)
+        if public:
+            _check_public_invalid(out, moltype, canon, seqs, calc, aln, exp, fail)
         if relations and rng is not None and len(seqs[0][1]) > 1:
             # column order is irrelevant
             L = len(seqs[0][1])
@@ -802,7 +839,7 @@ def spec_check(ctx, budget):
     for k in range(100 * budget):
         moltype, canon, seqs = gen_alignment(rng)
         calcs = CALCS if k % 2 == 0 else rng.sample(CALCS, 3)
-        _check_alignment(out, moltype, canon, seqs, calcs, rng)
+        _check_alignment(out, moltype, canon, seqs, calcs, rng, public=(k % 4 == 1))
         _check_apps(out, moltype, seqs, rng.sample(CALCS[:6], 2))
     # exact saturation boundaries: p = 3/4, a TN93 log argument = 0, det F = 0 with exact float arithmetic (the estimator
     # must report "invalid" there), and pairs one column inside the boundary (must report the formula value)
@@ -810,7 +847,7 @@ def spec_check(ctx, budget):
         kind = U.BOUNDARY_KINDS[k % len(U.BOUNDARY_KINDS)]
         moltype, canon, seqs = gen_boundary_alignment(rng, kind)
         bump(out, "boundary_kind", kind)
-        _check_alignment(out, moltype, canon, seqs, CALCS, rng)
+        _check_alignment(out, moltype, canon, seqs, CALCS, rng, public=True)
     for mt, sq in (("rna", [("a", "ACGUACGUACUUACGUAAUU"), ("b", "ACGUACGAACUCACGUAAUU"), ("c", "ACGAACGUACUUACGUCAUG")]),
                    ("dna", [("a", "ACGTACGTACTTACGTAATT"), ("b", "ACGTACGAACTCACGTAATT"), ("c", "ACGAACGTACTTACGTCATG")])):
         _check_apps(out, mt, sq, CALCS[:6])
@@ -885,7 +922,7 @@ def _replay_input(inp):
 
         seqs = [tuple(p) for p in inp["seqs"]]
         canon = "ACGT" if inp["moltype"] == "dna" else "ACGU"
-        _check_alignment(out, inp["moltype"], canon, seqs, [inp["calc"]], random.Random(0), relations=True)
+        _check_alignment(out, inp["moltype"], canon, seqs, [inp["calc"]], random.Random(0), relations=True, public=bool(inp.get("public")))
     return out["failures"]
 
 
